@@ -139,10 +139,13 @@ def resolve_kw(cfg, dip_deg, extra=None):
     return kw
 
 
-def stream(cfg, inst, q0, G_, A, M, dt=None):
-    """Feed samples 1..N-1 one at a time through the update method, starting from q0 (= row 0); dt, when given, is passed to every call."""
+def stream(cfg, inst, q0, G_, A, M, dt=None, feed_raw=False):
+    """Feed samples 1..N-1 one at a time through the update method, starting from q0 (= row 0); dt, when given, is passed to every call.
+    feed_raw: hand the object update() returned straight back as the next a-priori attitude (q = f.update(q, ...)), instead of a plain array."""
     Q = [np.array(q0, float)]
     k = {} if dt is None else {"dt": dt}
+    prev = Q[-1]
     for t in range(1, len(G_)):
-        Q.append(np.array(cfg.step(inst, Q[-1], G_[t], A[t], None if M is None else M[t], **k), dtype=float))
+        prev = cfg.step(inst, prev if feed_raw else Q[-1], G_[t], A[t], None if M is None else M[t], **k)
+        Q.append(np.array(prev, dtype=float))
     return np.array(Q)
